@@ -380,6 +380,7 @@ class Exec:
 
     def __init__(self, spec):
         self.spec = spec
+        self.cstack = []
         self.fresh = 0
         self.stores = list(spec.get('atomics', {}).values())
 
@@ -405,6 +406,9 @@ class Exec:
                 return env['locals'][p]
             if p in self.spec.get('vars', {}):
                 n, ty = self.spec['vars'][p]
+                if n in self.spec.get('watch', []):
+                    # a read of a watched (shared, non-atomic) variable: remember under which condition it is evaluated
+                    env['wreads'].setdefault(n, []).append(' ∧ '.join(self.cstack) if self.cstack else 'True')
                 if n in env['assigned']:
                     return env['assigned'][n]
                 return (n, ty)
@@ -434,8 +438,11 @@ class Exec:
             raise TranslateError('unsupported unary %s' % op)
         if k == 'ternary':
             c = self.prop(e[1], env)
+            self.cstack.append(c)
             a, ta = self.ev(e[2], env)
+            self.cstack[-1] = '¬ %s' % c
             b, tb = self.ev(e[3], env)
+            self.cstack.pop()
             if ta in ('prop', 'bool') or tb in ('prop', 'bool'):
                 return ('(if %s then %s else %s)' % (c, self.as_prop(a, ta), self.as_prop(b, tb)), 'prop')
             ty = ta if ta == tb else ('ptr' if 'ptr' in (ta, tb) else common(ta, tb))
@@ -446,7 +453,11 @@ class Exec:
         if k == 'bin':
             op = e[1]
             if op in ('&&', '||'):
-                return ('(%s %s %s)' % (self.prop(e[2], env), '∧' if op == '&&' else '∨', self.prop(e[3], env)), 'prop')
+                left = self.prop(e[2], env)
+                self.cstack.append(left if op == '&&' else '¬ %s' % left)      # the right operand is evaluated only then
+                right = self.prop(e[3], env)
+                self.cstack.pop()
+                return ('(%s %s %s)' % (left, '∧' if op == '&&' else '∨', right), 'prop')
             a, ta = self.ev(e[2], env)
             b, tb = self.ev(e[3], env)
             if ta in ('prop', 'bool') or tb in ('prop', 'bool'):
@@ -588,6 +599,8 @@ class Exec:
             if p not in self.spec.get('vars', {}):
                 raise TranslateError('assignment to unknown variable %s' % p)
             n, ty = self.spec['vars'][p]
+            if n in self.spec.get('watch', []):
+                env['wwrites'][n] = True
             if ty != 'ptr' and vty != ty:
                 v = wrap(ty, v)
             ln = self.unique(n, env)
@@ -650,11 +663,13 @@ class Exec:
 
     def copy(self, env):
         return {'locals': dict(env['locals']), 'assigned': dict(env['assigned']), 'stores': dict(env['stores']),
-                'asserts': list(env['asserts']), 'effects': list(env['effects']), 'ret': env['ret'], 'throws': env['throws']}
+                'asserts': list(env['asserts']), 'effects': list(env['effects']), 'ret': env['ret'], 'throws': env['throws'],
+                'wreads': {k: list(v) for k, v in env['wreads'].items()}, 'wwrites': dict(env['wwrites'])}
 
     def translate(self, stmts):
         self.used = set(self.spec['inputs'].keys())
-        env = {'locals': {}, 'assigned': {}, 'stores': {}, 'asserts': [], 'effects': [], 'ret': None, 'throws': False}
+        env = {'locals': {}, 'assigned': {}, 'stores': {}, 'asserts': [], 'effects': [], 'ret': None, 'throws': False,
+               'wreads': {}, 'wwrites': {}}
         for pn, (ln, ty) in self.spec.get('params', {}).items():
             env['locals'][pn] = (ln, ty)
         return self.run(stmts, env, lambda e: ('leaf', e))
@@ -684,6 +699,16 @@ def emit(tree, spec, ind):
     for n in spec.get('atomics', {}).values():
         if n + '_store' in spec.get('store_outputs', []):
             fields.append('%s_store := %s' % (n, ('some %s' % env['stores'][n]) if n in env['stores'] else 'none'))
+    for n in spec.get('watch', []):
+        conds = env['wreads'].get(n, [])
+        if not conds:
+            rd = 'false'
+        elif 'True' in conds:
+            rd = 'true'
+        else:
+            rd = 'decide (%s)' % ' ∨ '.join('(%s)' % c for c in conds)
+        fields.append('%s_read := %s' % (n, rd))
+        fields.append('%s_written := %s' % (n, 'true' if env['wwrites'].get(n) else 'false'))
     fields.append('ok := %s' % ('decide (%s)' % ' ∧ '.join(env['asserts']) if env['asserts'] else 'true'))
     fields.append('throws := %s' % ('true' if env['throws'] else 'false'))
     fields.append('effects := [%s]' % ', '.join(env['effects']))
@@ -698,6 +723,9 @@ def struct_decl(name, spec):
         lines.append('  %s : Int' % n)
     for n in spec.get('store_outputs', []):
         lines.append('  %s : Option Int' % n)
+    for n in spec.get('watch', []):
+        lines.append('  %s_read : Bool      -- the function reads the shared non-atomic `%s` on this path' % (n, n))
+        lines.append('  %s_written : Bool' % n)
     lines.append('  ok : Bool          -- conjunction of the asserts passed on the executed path')
     lines.append('  throws : Bool      -- the path ends in a throw statement')
     lines.append('  effects : List (String × List Int)   -- opaque calls in program order, integer arguments only')
